@@ -107,13 +107,35 @@ Definition number_of_fid (f : fid) : option Z :=
 Definition is_fixed_coap (f : fid) : bool :=
   match fproto f with P_CoAP => (0 <=? fidx f) && (fidx f <=? 6) | _ => false end.
 
+(* The body of the for loop of CoAPParser.unparse, for a field that is not one of the fixed ones, is
+       try:
+           option_number = COAP_OPTIONS_NAME_TO_NUMBER[field_id]
+       except KeyError:
+           match = re.match(self.unknown_option_pattern, field_id)
+           if match: option_number = int(match.group(1))
+           else: raise UnparserError(...)
+       finally:
+           option_delta = option_number - previous_option_number
+           ... append delta, length, extended delta / length, value ...   (unparse_option)
+           previous_option_number = option_number
+   so the option fields are built inside the finally clause, which also runs while the UnparserError of an
+   unrecognised identifier is pending.  The local name option_number is then
+   * unbound when no option came before (seen = false): reading it raises UnboundLocalError, which replaces
+     the pending UnparserError;
+   * stale otherwise (seen = true): it still holds the number of the previous option, which is also
+     previous_option_number (prev), so the clause builds an option of delta 0 with the value of the
+     unrecognised field.  If that raises (only possible exception: OverflowError of
+     (length - 269).to_bytes(2) for a value of 65805 bytes or more) the new exception replaces the pending
+     UnparserError; otherwise the UnparserError propagates when the clause ends (the fields appended to
+     the local list unparsed_fields are lost with it). *)
 Fixpoint coap_unparse_loop (fs : list (fid * bits)) (prev : Z) (seen : bool) : res (list (fid * bits)) :=
   match fs with
   | [] => Ok []
   | (f, v) :: r =>
     if is_fixed_coap f then do rest <- coap_unparse_loop r prev seen ;; Ok ((f, v) :: rest)
     else match number_of_fid f with
-         | None => if seen then Exc UnparserError else Exc UnboundLocalError
+         | None => if seen then do _ <- unparse_option prev prev v ;; Exc UnparserError
+                   else Exc UnboundLocalError
          | Some n =>
            do o <- unparse_option n prev v ;;
            do rest <- coap_unparse_loop r n true ;;
